@@ -358,7 +358,7 @@ struct P_C17a
         PG g(ch); Case c; std::string v = g.pattern();
         auto pos = [&](const std::string& s) { return s.empty() ? size_t(0) : size_t(ch.below(uint32_t(s.size() + 1))); };
         std::string m = v;
-        switch (ch.below(13))
+        switch (ch.below(14))
         {
         case 0: { // delete one ')' / ']' / '}' / '('
             std::vector<size_t> cand; for (size_t i = 0; i < v.size(); ++i) if (strchr(")]}(", v[i])) cand.push_back(i);
@@ -374,6 +374,7 @@ struct P_C17a
         case 8: m.insert(pos(v), std::string(1, "()[]{}*+?|\\^-."[ch.below(15)])); c.labels.push_back("mut:insert-special"); break;
         case 9: if (!v.empty()) m.erase(pos(v) % v.size(), 1); c.labels.push_back("mut:delete-any"); break;
         case 10: m = v + ")"; c.labels.push_back("mut:extra-close"); break;
+        case 12: { size_t p = pos(v); m.insert(p, std::string("\\") + char(ch.chance(1, 2) ? 1 + ch.below(31) : 0x7f + ch.below(129))); c.labels.push_back("mut:backslash+raw-byte"); break; }   // an ESCAPED raw non-printable byte is still a raw non-printable byte
         case 11: if (v.size() >= 2) m = v.substr(0, 1 + ch.below(uint32_t(v.size() - 1))); c.labels.push_back("mut:truncate"); break;   // every proper prefix of a valid pattern: the scan ends in the middle of some construct
         default: c.labels.push_back("unmutated"); break;
         }
